@@ -667,7 +667,7 @@ def _law_exact(ctx, mon, got, want, desc, what, soft=None, slack=None, nev=None)
             return
     i = int(np.nonzero(ne)[0][0])
     g, w = float(got.ravel()[i]), float(want.ravel()[i])
-    wit = dict(desc, law=what, event=i, got=g, want=w, n_differing=int(ne.sum()),
+    wit = dict(desc, law=what, index_in_comparison=i, got=g, want=w, n_differing=int(ne.sum()),
                rel_diff=abs(g - w) / max(abs(w), 1e-300) if np.isfinite(g) and np.isfinite(w)
                else None)
     ctx.violation(mon, wit, message=f"{what}: event {i} gives {g!r} instead of {w!r} "
@@ -696,7 +696,8 @@ def _law_close(ctx, mon, got, want, rtol, slack, loose, desc, what):
     if bad.size:
         i = int(bad[0])
         g, w = float(got[i]), float(want[i])
-        ctx.violation(mon, dict(desc, law=what, event=i, got=g, want=w, n_bad=int(bad.size),
+        ctx.violation(mon, dict(desc, law=what, index_in_comparison=i, got=g, want=w,
+                                n_bad=int(bad.size),
                                 rel_diff=abs(g - w) / max(abs(w), 1e-300)
                                 if np.isfinite(g) and np.isfinite(w) else None),
                       message=f"{what}: event {i} gives {g!r}, law demands {w!r} "
